@@ -1022,8 +1022,65 @@ fn script_vals(script: &[crate::case::Entry]) -> Vec<u64> {
         .collect()
 }
 
+/// large elements (`fat`): `P` bytes of padding behind an `Elem` (16 bytes), `Q` behind a `CElem` (8 bytes)
+fn run_fat<const P: usize, const Q: usize>(case: &Case) {
+    use crate::elem::{FatCElem, FatElem, FatProbe};
+    let fat = |vals: &[u64]| -> Vec<FatElem<P>> {
+        let mut v = Vec::with_capacity(vals.len());
+        for x in vals {
+            v.push(FatElem::<P>::new(*x));
+        }
+        v
+    };
+    match (&case.src, case.adapt) {
+        (Src::Slice(vals), Adapt::None) => {
+            let b = fat(vals);
+            run_generic(case, false, &mut || IntoConcurrentIter::into_con_iter(b.as_slice()));
+        }
+        (Src::Slice(vals), Adapt::Cloned) => {
+            let b = fat(vals);
+            run_generic(case, false, &mut || IntoConcurrentIter::into_con_iter(b.as_slice()).cloned());
+        }
+        (Src::Slice(vals), Adapt::Copied) => {
+            let b: Vec<FatCElem<Q>> = vals.iter().map(|x| FatCElem { inner: CElem(*x), pad: [0u8; Q] }).collect();
+            run_generic(case, false, &mut || IntoConcurrentIter::into_con_iter(b.as_slice()).copied());
+        }
+        (Src::Vec(vals), _) => {
+            let mut once = Some(vals);
+            run_generic(case, false, &mut || {
+                let vals = once.take().expect("vec kinds have one slot");
+                IntoConcurrentIter::into_con_iter(fat(vals))
+            });
+        }
+        (Src::Array(vals), _) if vals.len() <= 8 && P < 1024 => with_array!(fat(vals), arr, {
+            let mut once = Some(arr);
+            run_generic(case, false, &mut || {
+                let arr = once.take().expect("array kinds have one slot");
+                IntoConcurrentIter::into_con_iter(arr)
+            });
+        }),
+        (Src::Iter(script, hint), _) => {
+            let mut once = Some(FatProbe::<P>(ProbeCore::new(script.clone(), *hint)));
+            run_generic(case, true, &mut || {
+                let p = once.take().expect("iter kinds have one slot");
+                IterIntoConcurrentIter::into_con_iter(p)
+            });
+        }
+        _ => {
+            eprintln!("orx-harness: case {}: fat applies to slice (none/cloned/copied), vec, array (128 only), iter", case.id);
+            std::process::exit(2);
+        }
+    }
+}
+
 /// Runs one case; the trace block (without the `case` line) is written to the out file.
 pub fn run_case(case: &Case) {
+    if case.fat == 128 {
+        return run_fat::<112, 120>(case);
+    }
+    if case.fat == 65536 {
+        return run_fat::<65520, 65528>(case);
+    }
     if case.pod {
         // `Copy` elements without drop glue, consumed (`needs_drop::<T>() == false`)
         match &case.src {
